@@ -101,6 +101,9 @@ const PROBES: &[&str] = &[
     "native_fill_contiguous_used",
     "crop_over_empty_boxes_only",
     "history_len_ge_4",
+    "far_from_origin",
+    "area_wider_than_255",
+    "area_over_65535_pixels",
 ];
 
 const FAULTS: &[&str] = &["short_stream", "surplus_stream", "unbounded_stream"];
@@ -183,7 +186,13 @@ fn gen_op(src: &mut Src, m: &StackModel, top: R, step: u32) -> HOp {
                             _ => (x0 + src.draw((top.w().max(1)) as u32) as i32, y1),
                         }
                     }
-                    4 => (src.sym(300), src.sym(300)),
+                    4 => {
+                        if src.draw(8) == 7 {
+                            (src.sym(70000), src.sym(70000))
+                        } else {
+                            (top.x0 as i32 + src.sym(300), top.y0 as i32 + src.sym(300))
+                        }
+                    }
                     _ => (top.x0 as i32 + src.sym(12), top.y0 as i32 + src.sym(12)),
                 };
                 px.push((x, y, col(step, i)));
@@ -246,6 +255,23 @@ fn run_history<C: SimColor>(sc: &Scenario, opts: &Opts) -> RunOut {
     }
     if sc.steps.len() >= 4 {
         out.probes |= probe("history_len_ge_4");
+    }
+    if sc.dev.bbox[0].abs() > 32768 || sc.dev.bbox[1].abs() > 32768 {
+        out.probes |= probe("far_from_origin");
+    }
+    for st in &sc.steps {
+        let a = match &st.op {
+            HOp::FillContiguous { area, .. } | HOp::FillSolid { area, .. } => Some(*area),
+            _ => None,
+        };
+        if let Some(a) = a {
+            if a[2] > 255 && a[3] > 0 {
+                out.probes |= probe("area_wider_than_255");
+            }
+            if (a[2].max(0) as i64) * (a[3].max(0) as i64) > 65535 {
+                out.probes |= probe("area_over_65535_pixels");
+            }
+        }
     }
     if dev_r.x0 != 0 || dev_r.y0 != 0 {
         out.probes |= probe("parent_box_non_origin");
@@ -610,7 +636,7 @@ impl Property for C03 {
             "SimDisplay models conforming drivers",
             "empty bounding boxes are compared as point sets; a cropped layer over an empty intersection is only checked for its (empty) box and not drawn through (origin undocumented)",
             "clear(c) on any layer means fill of that layer's own bounding box",
-            "coordinates within +-300, areas <= 48x48, depth <= 3, <= 6 operations; release arithmetic",
+            "coordinates within +-300 and areas <= 48x48 in most histories; 1 in 16 histories lives around a point up to +-60000 from the origin with translations up to +-40000 (|coordinates| < 200000), 1 in 64 uses areas up to 300x260 (78000 pixels); depth <= 3, <= 6 operations; release arithmetic",
             "colour conversion is modelled by the library's own Into (its numeric correctness is C13)",
         ]
     }
@@ -618,13 +644,31 @@ impl Property for C03 {
     fn gen(&self, src: &mut Src) -> Scenario {
         let dev_kind = CHAIN_KINDS[src.draw(3) as usize];
         let (caps, disc) = gen_caps_disc(src);
-        let large = src.draw(5) < 3;
-        let bbox = if large { [-70, -70, 150, 150] } else { gen_small_box(src) };
+        // swarm modes: 1/16 of the histories live far from the origin (coordinates beyond +-32768),
+        // 1/64 use areas wider than 255 pixels / larger than 65535 pixels on a 340x300 device
+        let mode = src.draw(64);
+        let far = mode < 4;
+        let bigarea = mode == 63;
+        let off = if far { [src.sym(60000), src.sym(60000)] } else { [0, 0] };
+        let large = bigarea || src.draw(5) < 3;
+        let mut bbox = if bigarea {
+            [-20, -20, 340, 300]
+        } else if large {
+            [-70, -70, 150, 150]
+        } else {
+            gen_small_box(src)
+        };
+        bbox[0] += off[0];
+        bbox[1] += off[1];
         let dev = DevCfg { bbox, caps, disc };
         let dev_r = dev.r();
         // for the large device keep adapters around a smaller virtual region so that writes stay inside
-        let n_steps = 1 + src.draw(6);
-        let virt0 = R::xywh(-12 + src.sym(6) as i64, -12 + src.sym(6) as i64, 1 + src.draw(40) as i64, 1 + src.draw(40) as i64);
+        let n_steps = if bigarea { 1 + src.draw(3) } else { 1 + src.draw(6) };
+        let virt0 = if bigarea {
+            R::xywh(off[0] as i64, off[1] as i64, 300, 260)
+        } else {
+            R::xywh(-12 + src.sym(6) as i64, -12 + src.sym(6) as i64, 1 + src.draw(40) as i64, 1 + src.draw(40) as i64).shift(off[0] as i64, off[1] as i64)
+        };
         let mut steps: Vec<Step> = Vec::new();
         for si in 0..n_steps {
             let stack = match steps.last() {
@@ -683,7 +727,13 @@ fn gen_stack_rel(src: &mut Src, dev_r: &R, virt: &R, dev_kind: ColorKind) -> Vec
         };
         let can_cc = crate::dev::down_kind(kind) != kind;
         let ad = match src.draw(if can_cc { 4 } else { 3 }) {
-            0 => Ad::Translated([src.sym(12), src.sym(12)]),
+            0 => {
+                if src.draw(16) == 15 {
+                    Ad::Translated([src.sym(40000), src.sym(40000)])
+                } else {
+                    Ad::Translated([src.sym(12), src.sym(12)])
+                }
+            }
             1 => Ad::Clipped(gen_rect_rel(src, &b, 24)),
             2 => {
                 let mut a = gen_rect_rel(src, &b, 24);
